@@ -405,22 +405,22 @@ Section Lookup.
     destruct (Z.leb_spec (-1) r); [|lia]. destruct (Z.ltb_spec r 30); [reflexivity|lia].
   Qed.
 
-  Lemma lookup_range lon lat r : (r < -1 \/ 29 < r) -> lonlat_to_cell OP lon lat r = Some Err.
+  Lemma lookup_range_core lon lat r : (r < -1 \/ 29 < r) -> lonlat_to_cell_core OP lon lat r = Some Err.
   Proof.
-    intros H. unfold lonlat_to_cell, MAX_RESOLUTION.
+    intros H. unfold lonlat_to_cell_core, MAX_RESOLUTION.
     destruct (Z.leb_spec (-1) r); [destruct (Z.ltb_spec r 30); [lia|reflexivity]|reflexivity].
   Qed.
 
-  Lemma lookup_world lon lat : lonlat_to_cell OP lon lat (-1) = Some (Ok 0).
+  Lemma lookup_world_core lon lat : lonlat_to_cell_core OP lon lat (-1) = Some (Ok 0).
   Proof. reflexivity. Qed.
 
   (* for a proper resolution, whatever answer is produced is the serialization of a cell
      description with the integer content of an estimate of that resolution *)
-  Lemma lookup_cases lon lat r o :
-    0 <= r <= 29 -> lonlat_to_cell OP lon lat r = Some o ->
+  Lemma lookup_cases_core lon lat r o :
+    0 <= r <= 29 -> lonlat_to_cell_core OP lon lat r = Some o ->
     exists c, est_wf r c /\ o = serialize c.
   Proof.
-    intros Hr. unfold lonlat_to_cell. rewrite range_guard by lia.
+    intros Hr. unfold lonlat_to_cell_core. rewrite range_guard by lia.
     destruct (Z.eqb_spec r (-1)); [lia|].
     destruct (r <? 2).
     - intros H. obind_inv H est He. inversion H. exists est. split; [eapply estimate_wf; exact He|reflexivity].
@@ -438,6 +438,94 @@ Section Lookup.
         eapply estimate_wf. exact He.
   Qed.
 
+  Theorem lookup_resolution_core lon lat r id :
+    lonlat_to_cell_core OP lon lat r = Some (Ok id) -> get_resolution id = r /\ canonical_id id.
+  Proof.
+    intros H.
+    destruct (Z_lt_dec r (-1)); [rewrite lookup_range_core in H by lia; discriminate|].
+    destruct (Z_lt_dec 29 r); [rewrite lookup_range_core in H by lia; discriminate|].
+    destruct (Z.eq_dec r (-1)) as [-> |Hne].
+    - rewrite lookup_world_core in H. inversion H; subst id. split; [reflexivity|].
+      exists (mkCell 0 0 0 (-1)). split; [|reflexivity].
+      unfold canon; cbn [origin_id segment s resolution]; repeat split; intros; lia.
+    - assert (Hr : 0 <= r <= 29) by lia.
+      destruct (lookup_cases_core _ _ _ _ Hr H) as (c & Hc & Hs).
+      destruct (est_serialize _ _ Hc Hr) as (id' & Hid & Hres & Hcan).
+      rewrite Hid in Hs. inversion Hs; subst id'. split; assumption.
+  Qed.
+
+  (* every outcome: undecided, range error, or an ID; never a panic, never divergence *)
+  Theorem lookup_total_core lon lat r :
+    -1 <= r <= 29 ->
+    lonlat_to_cell_core OP lon lat r = None \/ exists id, lonlat_to_cell_core OP lon lat r = Some (Ok id).
+  Proof.
+    intros Hr. destruct (Z.eq_dec r (-1)) as [-> |Hne]; [right; exists 0; apply lookup_world_core|].
+    destruct (lonlat_to_cell_core OP lon lat r) as [o|] eqn:E; [right|left; reflexivity].
+    assert (Hr' : 0 <= r <= 29) by lia.
+    destruct (lookup_cases_core _ _ _ _ Hr' E) as (c & Hc & ->).
+    destruct (est_serialize _ _ Hc Hr') as (id & -> & _). exists id. reflexivity.
+  Qed.
+
+  Theorem lookup_no_panic_core lon lat r :
+    lonlat_to_cell_core OP lon lat r <> Some Panic /\ lonlat_to_cell_core OP lon lat r <> Some Diverge.
+  Proof.
+    destruct (Z_lt_dec r (-1)); [rewrite lookup_range_core by lia; split; discriminate|].
+    destruct (Z_lt_dec 29 r); [rewrite lookup_range_core by lia; split; discriminate|].
+    assert (Hr : -1 <= r <= 29) by lia.
+    destruct (lookup_total_core lon lat r Hr) as [-> |(id & ->)]; split; discriminate.
+  Qed.
+
+  (* a range error is reported only for a resolution outside -1..29 *)
+  Theorem lookup_err_only_range_core lon lat r :
+    lonlat_to_cell_core OP lon lat r = Some Err -> r < -1 \/ 29 < r.
+  Proof.
+    intros H. destruct (Z_lt_dec r (-1)); [lia|]. destruct (Z_lt_dec 29 r); [lia|].
+    assert (Hr : -1 <= r <= 29) by lia.
+    destruct (lookup_total_core lon lat r Hr) as [E|(id & E)]; rewrite E in H; discriminate.
+  Qed.
+
+  (* what the answer is, in the resolutions that use the probe loop: either a sample's estimate that
+     passed the containment test, or the fallback choice among the failed estimates *)
+  Theorem lookup_answer_core lon lat r id :
+    2 <= r <= 29 -> lonlat_to_cell_core OP lon lat r = Some (Ok id) ->
+    exists samples c, sample_points OP lon lat r = Some samples /\ serialize c = Ok id /\
+      ((exists slon slat d, In (slon, slat) samples /\ lonlat_to_estimate OP slon slat r = Some c /\
+          cell_contains_point OP c lon lat = Some d /\ o_ltb OP (z2T 0) d = Some true)
+       \/
+       (exists x l, probe OP samples lon lat r [] [] = Some (inr (x :: l)) /\
+          best_of OP l x = Some c /\
+          Forall (failed_entry samples lon lat r) (x :: l))).
+  Proof.
+    intros Hr. unfold lonlat_to_cell_core. rewrite range_guard by lia.
+    destruct (Z.eqb_spec r (-1)) as [|Hn1]; [lia|]. destruct (Z.ltb_spec r 2) as [|Hge2]; [lia|].
+    intros H. obind_inv H samples Hs. obind_inv H pr Hp. exists samples.
+    destruct pr as [est|l].
+    - injection H as Hser. exists est. split; [exact Hs|]. split; [exact Hser|]. left.
+      exact (probe_sound_gen _ _ _ _ _ _ _ Hp).
+    - destruct l as [|x l]; [discriminate|]. obind_inv H b Hb. injection H as Hser.
+      exists b. split; [exact Hs|]. split; [exact Hser|]. right. exists x, l.
+      split; [exact Hp|]. split; [exact Hb|].
+      destruct (probe_fallback_entries _ _ _ _ _ _ _ Hp) as [_ H2].
+      apply Forall_forall. intros y Hy. destruct (H2 y Hy) as [[]|Hf]. exact Hf.
+  Qed.
+
+  (* ---- the public function: range check, world cell, longitude reduced modulo 360, then the core *)
+  Lemma lookup_unfold lon lat r : 0 <= r <= 29 ->
+    lonlat_to_cell OP lon lat r = obind (frem OP lon (z2T 360)) (fun lon' => lonlat_to_cell_core OP lon' lat r).
+  Proof.
+    intros Hr. unfold lonlat_to_cell. rewrite range_guard by lia.
+    destruct (Z.eqb_spec r (-1)); [lia|reflexivity].
+  Qed.
+
+  Lemma lookup_range lon lat r : (r < -1 \/ 29 < r) -> lonlat_to_cell OP lon lat r = Some Err.
+  Proof.
+    intros H. unfold lonlat_to_cell, MAX_RESOLUTION.
+    destruct (Z.leb_spec (-1) r); [destruct (Z.ltb_spec r 30); [lia|reflexivity]|reflexivity].
+  Qed.
+
+  Lemma lookup_world lon lat : lonlat_to_cell OP lon lat (-1) = Some (Ok 0).
+  Proof. reflexivity. Qed.
+
   Theorem lookup_resolution lon lat r id :
     lonlat_to_cell OP lon lat r = Some (Ok id) -> get_resolution id = r /\ canonical_id id.
   Proof.
@@ -445,25 +533,19 @@ Section Lookup.
     destruct (Z_lt_dec r (-1)); [rewrite lookup_range in H by lia; discriminate|].
     destruct (Z_lt_dec 29 r); [rewrite lookup_range in H by lia; discriminate|].
     destruct (Z.eq_dec r (-1)) as [-> |Hne].
-    - rewrite lookup_world in H. inversion H; subst id. split; [reflexivity|].
-      exists (mkCell 0 0 0 (-1)). split; [|reflexivity].
-      unfold canon; cbn [origin_id segment s resolution]; repeat split; intros; lia.
-    - assert (Hr : 0 <= r <= 29) by lia.
-      destruct (lookup_cases _ _ _ _ Hr H) as (c & Hc & Hs).
-      destruct (est_serialize _ _ Hc Hr) as (id' & Hid & Hres & Hcan).
-      rewrite Hid in Hs. inversion Hs; subst id'. split; assumption.
+    - apply (lookup_resolution_core lon lat (-1) id). rewrite lookup_world in H. rewrite lookup_world_core. exact H.
+    - rewrite lookup_unfold in H by lia. obind_inv H lon' Hl.
+      exact (lookup_resolution_core lon' lat r id H).
   Qed.
 
-  (* every outcome: undecided, range error, or an ID; never a panic, never divergence *)
   Theorem lookup_total lon lat r :
     -1 <= r <= 29 ->
     lonlat_to_cell OP lon lat r = None \/ exists id, lonlat_to_cell OP lon lat r = Some (Ok id).
   Proof.
     intros Hr. destruct (Z.eq_dec r (-1)) as [-> |Hne]; [right; exists 0; apply lookup_world|].
-    destruct (lonlat_to_cell OP lon lat r) as [o|] eqn:E; [right|left; reflexivity].
-    assert (Hr' : 0 <= r <= 29) by lia.
-    destruct (lookup_cases _ _ _ _ Hr' E) as (c & Hc & ->).
-    destruct (est_serialize _ _ Hc Hr') as (id & -> & _). exists id. reflexivity.
+    rewrite lookup_unfold by lia.
+    destruct (frem OP lon (z2T 360)) as [lon'|]; [|left; reflexivity].
+    cbn [obind]. apply lookup_total_core. exact Hr.
   Qed.
 
   Theorem lookup_no_panic lon lat r :
@@ -475,7 +557,6 @@ Section Lookup.
     destruct (lookup_total lon lat r Hr) as [-> |(id & ->)]; split; discriminate.
   Qed.
 
-  (* a range error is reported only for a resolution outside -1..29 *)
   Theorem lookup_err_only_range lon lat r :
     lonlat_to_cell OP lon lat r = Some Err -> r < -1 \/ 29 < r.
   Proof.
@@ -484,28 +565,19 @@ Section Lookup.
     destruct (lookup_total lon lat r Hr) as [E|(id & E)]; rewrite E in H; discriminate.
   Qed.
 
-  (* what the answer is, in the resolutions that use the probe loop: either a sample's estimate that
-     passed the containment test, or the fallback choice among the failed estimates *)
+  (* the answer is the core's answer at the reduced longitude lon' = lon - 360 * trunc(lon / 360) *)
   Theorem lookup_answer lon lat r id :
     2 <= r <= 29 -> lonlat_to_cell OP lon lat r = Some (Ok id) ->
-    exists samples c, sample_points OP lon lat r = Some samples /\ serialize c = Ok id /\
+    exists lon', frem OP lon (z2T 360) = Some lon' /\
+    exists samples c, sample_points OP lon' lat r = Some samples /\ serialize c = Ok id /\
       ((exists slon slat d, In (slon, slat) samples /\ lonlat_to_estimate OP slon slat r = Some c /\
-          cell_contains_point OP c lon lat = Some d /\ o_ltb OP (z2T 0) d = Some true)
+          cell_contains_point OP c lon' lat = Some d /\ o_ltb OP (z2T 0) d = Some true)
        \/
-       (exists x l, probe OP samples lon lat r [] [] = Some (inr (x :: l)) /\
+       (exists x l, probe OP samples lon' lat r [] [] = Some (inr (x :: l)) /\
           best_of OP l x = Some c /\
-          Forall (failed_entry samples lon lat r) (x :: l))).
+          Forall (failed_entry samples lon' lat r) (x :: l))).
   Proof.
-    intros Hr. unfold lonlat_to_cell. rewrite range_guard by lia.
-    destruct (Z.eqb_spec r (-1)) as [|Hn1]; [lia|]. destruct (Z.ltb_spec r 2) as [|Hge2]; [lia|].
-    intros H. obind_inv H samples Hs. obind_inv H pr Hp. exists samples.
-    destruct pr as [est|l].
-    - injection H as Hser. exists est. split; [exact Hs|]. split; [exact Hser|]. left.
-      exact (probe_sound_gen _ _ _ _ _ _ _ Hp).
-    - destruct l as [|x l]; [discriminate|]. obind_inv H b Hb. injection H as Hser.
-      exists b. split; [exact Hs|]. split; [exact Hser|]. right. exists x, l.
-      split; [exact Hp|]. split; [exact Hb|].
-      destruct (probe_fallback_entries _ _ _ _ _ _ _ Hp) as [_ H2].
-      apply Forall_forall. intros y Hy. destruct (H2 y Hy) as [[]|Hf]. exact Hf.
+    intros Hr H. rewrite lookup_unfold in H by lia. obind_inv H lon' Hl.
+    exists lon'. split; [exact Hl|]. exact (lookup_answer_core lon' lat r id Hr H).
   Qed.
 End Lookup.
